@@ -751,12 +751,19 @@ func execHistClaims(res *Result, t *Trace, obj string, start *ClaimsDesc) {
 		}
 		before := fullObs(c)
 		beforeG := getterList(c)
+		beforeS := structObs(c)
 		err, ok := callSetter(c, op)
 		histArg = nil
 		if !ok {
 			continue
 		}
+		afterS := structObs(c)
 		after := fullObs(c)
+		if err != nil && beforeS != afterS {
+			// a failed setter that rewrote an exported field (reported by the before/after comparison below)
+			before += "|struct=" + beforeS
+			after += "|struct=" + afterS
+		}
 		afterG := getterList(c)
 		res.Evals++
 		res.logf("%d %s err=%s", i, op.K, okOrErr(err))
@@ -785,6 +792,16 @@ func execHistClaims(res *Result, t *Trace, obj string, start *ClaimsDesc) {
 				}
 			} else {
 				res.Probes["no_valid_base"]++
+			}
+		}
+		if op.K == "sw" && op.D == 0 {
+			// the exported stand-alone validator for this claim must agree with the setter
+			if l, ok := opSwList(op); ok && len(l) > 0 {
+				verr := safely(func() string { return okOrErr(psatoken.ValidateSwComponents(swToIface(l))) })
+				res.Probes["standalone_validator_compared"]++
+				if (verr == "ok") != (err == nil) {
+					res.violate("C11", "setter-disagrees-with-standalone-validator", sig, i, "%s SetSoftwareComponents returned %v for a list on which ValidateSwComponents returns %s (value: %s)", obj, err, verr, opValue(op))
+				}
 			}
 		}
 		if isClear {
